@@ -123,7 +123,10 @@ pub(super) fn decrypt_packet_body(
 
     if crypto_update {
         // Validate incoming key update
-        if number <= rx_packet || prev_crypto.is_some_and(|x| x.update_unacked) {
+        // `rx_packet` is also zero while nothing has been received in this space yet, in which
+        // case packet 0 may legitimately be the first to use the updated keys
+        let stale = number <= rx_packet && !spaces[space].dedup.is_unused();
+        if stale || prev_crypto.is_some_and(|x| x.update_unacked) {
             return Err(Some(TransportError::KEY_UPDATE_ERROR("")));
         }
     }
